@@ -331,7 +331,23 @@ func (c *Ctx) checkOnlineCounter() {
 		switch kind {
 		case "adjuster":
 		case "++", "--":
-			judgeStep(fn, st, construct)
+			// the step extracted into a helper (`t.userOnlineInc(uid)`): judged at each call site
+			gFg := core.BoolGuard("!sess.background", core.IsFieldLoad(bg), false)
+			saved := core.NoLift
+			core.NoLift = true
+			okHere, cntHere := core.GuardedBy(fn, st, gFg)
+			core.NoLift = saved
+			muidsF := c.field("server", "perSessionData", "muids")
+			exempt := c.readsField(fn, muidsF) || (fn.Parent() != nil && c.readsField(fn.Parent(), muidsF))
+			callers := c.callersOf(fn)
+			if !(okHere && cntHere[0] > 0) && !exempt && fn.Parent() == nil && len(callers) > 0 && len(fn.Blocks) <= 3 {
+				for _, cs := range callers {
+					r.Func(fk(cs.Caller))
+					judgeStep(cs.Caller, cs.Site.(ssa.Instruction), fmt.Sprintf("%s: online%s via %s #%s", fk(cs.Caller), kind, fn.Name(), c.pos(cs.Site)))
+				}
+			} else {
+				judgeStep(fn, st, construct)
+			}
 		case "=0", "=1":
 			r.OK("C10.3-online-counter", construct, c.pos(st), "reset / first-session value")
 		default:
